@@ -711,13 +711,15 @@ def replay(path):
 MANIFEST = dict(
     category="proof",
     technique="refinement to a purely functional spec: Lean 4 theorems pool_append_only / entries_stable over the history model + "
-              "history correspondence (model pool = implementation pool) + snapshot/re-observe search on the real code",
+              "history correspondence (model pool = implementation pool) + snapshot/re-observe search on the real code"
+              " + effect translator (write sites extracted from the source)",
     text="The spec (D42/Model/History.lean) is a fold over public operations on an append-only pool; theorems: a step only appends, "
          "every earlier entry is unchanged after any history, a step's observation depends only on the entries it names. The "
          "implementation is checked to refine it: generated histories are run through both and the pools compared; model-free "
          "search: after every step of 30/100-step histories every pool entry is re-observed (repr, verdicts on probes, structural "
          "encoding, generated value under fixed draws) against its creation-time snapshot, arguments are deep-compared before and "
          "after, and caller-owned lists/dicts passed in earlier are mutated."
-         " Source pins: the normalised text of every anchor file is compared with the text the model was last validated against; a changed file is a broken obligation (no-failing-input-found unless the search finds an input).",
+         " Source pins: the normalised text of every anchor file is compared with the text the model was last validated against; a changed file is a broken obligation (no-failing-input-found unless the search finds an input)."
+         " Translator: every syntactic write of the library (Gen/Effects.lean, regenerated each run) is decided to go to an object built in the same activation or under construction, four listed exceptions aside (writes_are_local), nothing caller-owned is stored into props (stores_are_fresh); Frame.frame / frame_many: such activations leave every pre-existing cell unchanged.",
     note="The theorem is about the spec; aliasing through objects the harness never mutates (e.g. props.keys handed out to callers) "
          "cannot be exhibited — labelled partial. Trusted: Lean kernel + standard axioms, hand model (sampling tie), codec.")
